@@ -1,7 +1,7 @@
 #include "slu_@r@complex.h"
 extern int g_exit, g_exit_code, g_msgs;
 /* ghosts: which of the three slots c, a, b point to (any aliasing), pre-state values of the operands */
-int g_ci, g_ai, g_bi; @T@ g_a0, g_b0;
+int g_ci, g_ai, g_bi; @T@ g_a0, g_b0, g_q;
 /* inputs */
 @T@ in_v[3];
 void h_div(void) {
@@ -11,8 +11,18 @@ void h_div(void) {
   if (g_ci == g_bi && g_ci != g_ai) __CPROVER_assert(0, "canary: c aliases b");
   if (g_ci == g_ai && g_ci == g_bi) __CPROVER_assert(0, "canary: c, a, b all the same object");
   if (g_ci != g_ai && g_ci != g_bi && g_ai != g_bi) __CPROVER_assert(0, "canary: no aliasing");
+#if FIXED == 0
   if (g_b0.r == 0) __CPROVER_assert(0, "canary: purely imaginary divisor");
   if (g_b0.i == 0) __CPROVER_assert(0, "canary: real divisor");
-  if (g_b0.r > g_b0.i && g_b0.i > 0) __CPROVER_assert(0, "canary: |b.r| > |b.i| branch");
-  if (g_b0.i > g_b0.r && g_b0.r > 0) __CPROVER_assert(0, "canary: |b.r| <= |b.i| branch");
+#endif
+#if FIXED == 0 && EXACT != 1
+  if (g_b0.r == 2 && g_b0.i == -1) __CPROVER_assert(0, "canary: |b.r| > |b.i| branch");
+  if (g_b0.r == -1 && g_b0.i == -1) __CPROVER_assert(0, "canary: |b.r| <= |b.i| branch, both negative");
+#endif
+#if EXACT == 2
+  if (g_b0.r == 2 && g_b0.i == -1 && g_q.r == 1 && g_q.i == 2 && g_ci == g_ai) __CPROVER_assert(0, "canary: (4 + 3i) / (2 - i) in place");
+  if (g_b0.r == -1 && g_b0.i == 2 && g_q.r == -2 && g_q.i == 1 && g_ci == g_bi) __CPROVER_assert(0, "canary: -5i / (-1 + 2i) into b");
+#elif EXACT
+  if (g_b0.r == 2 && g_b0.i == -2 && g_a0.r == 1 && g_a0.i == -1) __CPROVER_assert(0, "canary: exact domain, |b|^2 == 8");
+#endif
 }
